@@ -8,6 +8,22 @@ fn unhex(s: &str) -> Vec<u8> {
     let b = s.as_bytes();
     (0..b.len() / 2).map(|i| u8::from_str_radix(std::str::from_utf8(&b[2 * i..2 * i + 2]).unwrap(), 16).unwrap()).collect()
 }
+// error text: std::io::Error implements Display; the no_std replacement only Debug (Error { kind, error: "..." }): extract the message
+#[cfg(feature = "std")]
+pub(crate) fn estr<E: std::fmt::Display>(e: &E) -> String { e.to_string() }
+#[cfg(not(feature = "std"))]
+pub(crate) fn estr<E: std::fmt::Debug>(e: &E) -> String {
+    let d = format!("{:?}", e);
+    match (d.find("error: \""), d.rfind('"')) { (Some(i), Some(j)) if j > i + 8 => d[i + 8..j].replace("\\n", "\n").replace("\\t", "\t").replace("\\\"", "\"").replace("\\'", "'").replace("\\\\", "\\"), _ => d }
+}
+// no_std: the JIT writes into caller-supplied executable memory (page aligned, RWX)
+#[cfg(not(feature = "std"))]
+pub(crate) fn exec_memory(len: usize) -> &'static mut [u8] {
+    unsafe {
+        let p = libc::mmap(std::ptr::null_mut(), len, libc::PROT_READ | libc::PROT_WRITE | libc::PROT_EXEC, libc::MAP_PRIVATE | libc::MAP_ANONYMOUS, -1, 0) as *mut u8;
+        std::slice::from_raw_parts_mut(p, len)
+    }
+}
 fn hex(b: &[u8]) -> String { b.iter().map(|x| format!("{:02x}", x)).collect() }
 
 // ---------------------------------------------------------------- instrumented helpers
@@ -39,7 +55,8 @@ pub(crate) fn helper_by_kind(k: &str) -> rbpf::ebpf::Helper {
     match k {
         "h0" => h0, "h1" => h1, "h2" => h2, "h3" => h3, "align" => h_align,
         "rsp" => unsafe { std::mem::transmute::<unsafe extern "C" fn(u64, u64, u64, u64, u64) -> u64, rbpf::ebpf::Helper>(verif_rsp_probe) },
-        "gather_bytes" => rbpf::helpers::gather_bytes, "memfrob" => rbpf::helpers::memfrob, "sqrti" => rbpf::helpers::sqrti,
+        "gather_bytes" => rbpf::helpers::gather_bytes, "memfrob" => rbpf::helpers::memfrob,
+        #[cfg(feature = "std")] "sqrti" => rbpf::helpers::sqrti,
         "strcmp" => rbpf::helpers::strcmp,
         _ => h0,
     }
@@ -71,7 +88,7 @@ fn pc_calc(p: &[u8], pc: usize, data: &mut dyn std::any::Any) -> u16 {
     for (k, s) in v { if *k == pc { return *s; } }
     256
 }
-fn accept_all(_p: &[u8]) -> Result<(), std::io::Error> { Ok(()) }
+fn accept_all(_p: &[u8]) -> Result<(), rbpf::lib::Error> { Ok(()) }
 
 fn run(req: &json::JsonValue) -> json::JsonValue {
     let mut prog = unhex(req["prog"].as_str().unwrap_or(""));
@@ -102,21 +119,23 @@ fn run(req: &json::JsonValue) -> json::JsonValue {
     let custom_verifier = req["verifier"].as_str().unwrap_or("default") == "none";
     let res = panic::catch_unwind(panic::AssertUnwindSafe(|| -> Result<Result<u64, String>, String> {
         macro_rules! setup { ($vm:ident) => {{
-            for h in req["helpers"].members() { $vm.register_helper(h[0].as_u32().unwrap(), helper_by_kind(h[1].as_str().unwrap())).map_err(|e| format!("register_helper: {e}"))?; }
+            for h in req["helpers"].members() { $vm.register_helper(h[0].as_u32().unwrap(), helper_by_kind(h[1].as_str().unwrap())).map_err(|e| format!("register_helper: {}", crate::estr(&e)))?; }
             for a in req["allowed"].members() { let s = base(a[0].as_str().unwrap()).wrapping_add(a[1].as_i64().unwrap() as u64); $vm.register_allowed_memory(s..s.wrapping_add(a[2].as_u64().unwrap())); }
             if !req["stack_usage"].is_null() {
                 if req["stack_usage"].is_array() {
                     let v: Vec<(usize, u16)> = req["stack_usage"].members().map(|x| (x[0].as_usize().unwrap(), x[1].as_u16().unwrap())).collect();
-                    $vm.set_stack_usage_calculator(pc_calc, Box::new(v)).map_err(|e| format!("set_stack_usage_calculator: {e}"))?;
-                } else { $vm.set_stack_usage_calculator(const_calc, Box::new(req["stack_usage"].as_u16().unwrap())).map_err(|e| format!("set_stack_usage_calculator: {e}"))?; }
+                    $vm.set_stack_usage_calculator(pc_calc, Box::new(v)).map_err(|e| format!("set_stack_usage_calculator: {}", crate::estr(&e)))?;
+                } else { $vm.set_stack_usage_calculator(const_calc, Box::new(req["stack_usage"].as_u16().unwrap())).map_err(|e| format!("set_stack_usage_calculator: {}", crate::estr(&e)))?; }
             }
-            if engine == "jit" { $vm.jit_compile().map_err(|e| format!("jit_compile: {e}"))?; }
+            #[cfg(not(feature = "std"))]
+            if engine == "jit" { $vm.set_jit_exec_memory(exec_memory(req["exec_mem"].as_usize().unwrap_or(1 << 24))).map_err(|e| format!("set_jit_exec_memory: {}", estr(&e)))?; }
+            if engine == "jit" { $vm.jit_compile().map_err(|e| format!("jit_compile: {}", crate::estr(&e)))?; }
             #[cfg(feature = "cranelift")]
-            if engine == "cranelift" { $vm.cranelift_compile().map_err(|e| format!("cranelift_compile: {e}"))?; }
+            if engine == "cranelift" { $vm.cranelift_compile().map_err(|e| format!("cranelift_compile: {}", crate::estr(&e)))?; }
         }} }
         macro_rules! load { ($ty:ident $(, $extra:expr)*) => {{
-            if custom_verifier { let mut vm = rbpf::$ty::new(None $(, $extra)*).map_err(|e| format!("new: {e}"))?; vm.set_verifier(accept_all).map_err(|e| format!("set_verifier: {e}"))?; vm.set_program(prog $(, $extra)*).map_err(|e| format!("load: {e}"))?; vm }
-            else { rbpf::$ty::new(Some(prog) $(, $extra)*).map_err(|e| format!("load: {e}"))? }
+            if custom_verifier { let mut vm = rbpf::$ty::new(None $(, $extra)*).map_err(|e| format!("new: {}", crate::estr(&e)))?; vm.set_verifier(accept_all).map_err(|e| format!("set_verifier: {}", crate::estr(&e)))?; vm.set_program(prog $(, $extra)*).map_err(|e| format!("load: {}", crate::estr(&e)))?; vm }
+            else { rbpf::$ty::new(Some(prog) $(, $extra)*).map_err(|e| format!("load: {}", crate::estr(&e)))? }
         }} }
         let r = match vmk.as_str() {
             "mbuff" => { let mut vm = load!(EbpfVmMbuff); setup!(vm);
@@ -142,7 +161,7 @@ fn run(req: &json::JsonValue) -> json::JsonValue {
                     _ => return Err("engine".into()) } }
             _ => return Err("vm kind".into()),
         };
-        Ok(r.map_err(|e| e.to_string()))
+        Ok(r.map_err(|e| crate::estr(&e)))
     }));
     match res {
         Err(p) => { out["status"] = "panic".into();
